@@ -172,6 +172,7 @@ ExecOp gen_exec(Rng &r, const std::string &marker, int size_class) {
     e.api = (int)r.below(2);
     int cls = r.chance(1, 8) ? 3 : (int)r.below(3);
     e.path = r.chance(1, 12) ? "" : "/bin/" + marker + gen_token(r, 0, size_class >= 2 ? 300 : 12, cls >= 2 ? cls : 0);
+    if (r.chance(1, 10)) { static const char *pc[] = {"%s", "%m", "%%", "%d", "%", "%x%x"}; e.path += pc[r.below(6)]; }
     switch (r.below(size_class >= 3 ? 10 : 8)) {
     case 0: e.argv_null = true; break;
     case 1: break;                                         // { NULL }
